@@ -9,12 +9,22 @@ def callees(repo, mod, fn):
     """Yield (call node, resolved (Module, FunctionDef) or None, text)."""
     cq = fn._qualname.rsplit(".", 1)[0] if "." in getattr(fn, "_qualname", "") else None
     cnode = mod.classes.get(cq) if cq else None
+    indirect = None
     for n in walk_no_nested(fn):
         if not isinstance(n, ast.Call):
             continue
         f = n.func
         text = norm(f)
         res = None
+        if isinstance(f, ast.Name) and fn._qualname + "." + f.id not in mod.funcs and repo.resolve_symbol(mod, f.id) is None:
+            # call through a local variable: `for decode in (f1, f2, f3): decode(...)`, `g = f1; g(...)`
+            if indirect is None:
+                indirect = _function_valued_locals(repo, mod, fn)
+            cands = indirect.get(f.id, [])
+            if cands:
+                for r in cands:
+                    yield n, r, text
+                continue
         if isinstance(f, ast.Name):
             # local function?
             local = None
@@ -50,6 +60,38 @@ def callees(repo, mod, fn):
                     if i:
                         res = i
         yield n, res, text
+
+
+def _function_valued_locals(repo, mod, fn):
+    """Local names that hold one of a fixed set of module-level functions: assigned from a function name, or the
+    target of a `for` over a tuple/list literal of function names (directly or through a local)."""
+    def funcs_of(v, lits):
+        if isinstance(v, ast.Name):
+            r = repo.resolve_symbol(mod, v.id)
+            if r and r[0] == "func":
+                return [(r[1], r[2])]
+            return lits.get(v.id, [])
+        if isinstance(v, (ast.Tuple, ast.List)):
+            out = []
+            for e in v.elts:
+                out += funcs_of(e, lits)
+            return out
+        return []
+    lits, out = {}, {}
+    nodes = list(walk_no_nested(fn))
+    for _ in range(2):
+        for n in nodes:
+            if isinstance(n, ast.Assign) and len(n.targets) == 1 and isinstance(n.targets[0], ast.Name):
+                fs = funcs_of(n.value, lits)
+                if fs:
+                    lits[n.targets[0].id] = fs
+                    if isinstance(n.value, ast.Name):
+                        out[n.targets[0].id] = fs
+            elif isinstance(n, ast.For) and isinstance(n.target, ast.Name):
+                fs = funcs_of(n.iter, lits)
+                if fs:
+                    out[n.target.id] = fs
+    return out
 
 
 def reachable(repo, mod, fn, max_depth=6):
